@@ -124,6 +124,8 @@ class ColumnMatcher(ConstantScoreMatcher):
         return False
 
     def skip_to_quality(self, minquality):
+        # Returns the number of "blocks" skipped, like other matchers
         if self._score <= minquality:
             self._i = len(self.creader)
-            return True
+            return 1
+        return 0
